@@ -123,6 +123,9 @@ QUICK["C07"] = ["R", "RX", "A", "SQ3", "SQ6", "SB", "UP", "RA", "E3b"]
 THOROUGH = {"C01": ["SX", "E", "EL", "S", "A", "B"], "C02": ["SX", "E", "E3q", "EL", "A", "S"], "C03": ["SX", "E", "EL", "S", "A"],
             "C04": ["SX", "SQ3", "SQ5", "S", "A", "B"], "C05": ["SX", "SQ3", "SQ5", "S", "A", "B"], "C06": ["SX", "RX", "E", "B", "R", "S"],
             "C07": ["SX", "RX", "R", "S", "A"], "C08": ["RX", "RA", "SX", "R"], "C16": ["SX", "RX", "SQ3", "S", "A", "R", "B"]}
+# the thorough tier contains every world of the quick tier
+for _p in THOROUGH:
+    THOROUGH[_p] = THOROUGH[_p] + [f for f in QUICK[_p] if f not in THOROUGH[_p] and f not in ("SQ1", "SQ2")]   # SQ1, SQ2 are inside SX
 EXHAUSTIVE = {"SX", "SQ1", "SQ2", "SQ3", "SQ5", "SQ6", "SB", "RX", "RA", "E", "E3", "E3q", "E3b", "UP"}
 PAR = max(2, min(8, vlib.NCPU // 2))     # concurrent harness processes / J3 JVMs per family
 FAMILY_PAR = 2                           # families in flight at a time
